@@ -961,7 +961,14 @@ func (x *Exec) strConcat(a, b Val, rt types.Type) Val {
 	arr := g.Const("concat", arrSort(SortBV64, SortBV8))
 	ln := g.Fresh(SortBV64, "(bvadd "+a.C[2]+" "+b.C[2]+")")
 	g.Assume("(forall ((i! (_ BitVec 64))) (=> (bvult i! " + a.C[2] + ") (= (select " + arr + " i!) (select " + a.C[0] + " (bvadd " + a.C[1] + " i!)))))")
-	g.Assume("(forall ((i! (_ BitVec 64))) (=> (bvult i! " + b.C[2] + ") (= (select " + arr + " (bvadd " + a.C[2] + " i!)) (select " + b.C[0] + " (bvadd " + b.C[1] + " i!)))))")
+	if b.HasLit && len(b.Lit) <= 32 {
+		// a short literal tail: its bytes one by one (no quantifier to instantiate)
+		for i := 0; i < len(b.Lit); i++ {
+			g.Assume(eq("(select "+arr+" (bvadd "+a.C[2]+" "+bvLit(uint64(i), 64)+"))", bvLit(uint64(b.Lit[i]), 8)))
+		}
+	} else {
+		g.Assume("(forall ((i! (_ BitVec 64))) (=> (bvult i! " + b.C[2] + ") (= (select " + arr + " (bvadd " + a.C[2] + " i!)) (select " + b.C[0] + " (bvadd " + b.C[1] + " i!)))))")
+	}
 	return Val{T: rt, C: []string{arr, bvLit(0, 64), ln}}
 }
 
